@@ -280,7 +280,8 @@ def landscapes_and_tables(spec_cases: list[dict]) -> dict:
         si = jax.ShapeDtypeStruct((3,), jnp.int32)
         sel = indices.IndexOperator(jnp.array([2, 0, 0, 1]), in_structure=si)
         xi = jnp.array([1, 2, 3], dtype=jnp.int32)
-        for k, opk in (('int3', 3 * sel), ('float3', 3.0 * sel), ('neg', -sel), ('negfloat', (-1.0) * sel), ('div', sel / 2)):
+        for k, opk in (('int3', 3 * sel), ('float3', 3.0 * sel), ('neg', -sel), ('negfloat', (-1.0) * sel), ('div', sel / 2),
+                       ('one', 1.0 * sel), ('intone', 1 * sel), ('divone', sel / 1)):
             e = opk.mv(xi)
             g = shared(opk, xi)
             if g.dtype != e.dtype or g.shape != e.shape or not np.array_equal(np.asarray(g), np.asarray(e)):
